@@ -86,6 +86,12 @@ def has_empty_obj(v):
     return False
 
 
+def doc(rng, v, ws=0.15):
+    """a whole text: the value with (sometimes) whitespace in front of and behind it - the first byte of a text need not be its first token"""
+    pad = lambda: rng.choice([b" ", b"\n", b"\t", b"\r\n", b"  ", b" \n\t\r" * 17, b" " * 64]) if rng.random() < 0.25 else b""
+    return pad() + text(rng, v, ws) + pad()
+
+
 def schema_pair(rng):
     """(existing text, update text): object roots sharing keys, with string -> string updates over-represented"""
     e = gen(rng, maxdepth=rng.choice([2, 3, 4]))
@@ -99,4 +105,4 @@ def schema_pair(rng):
             return ("s", rng.choice([b"n", b"new value", b"N" * 40, b"esc\\n\\u00e9", b""]))
         return derive(rng, v) if rng.random() < 0.5 else v
     t = strs(e)
-    return text(rng, e), text(rng, t)
+    return doc(rng, e), doc(rng, t)
